@@ -197,17 +197,25 @@ ASSUMPTIONS = ["customExtensionValueParser is null (HttpStateData/ConnStateData 
                "grammar therefore accepts any trailer lines and LF-only line ends there",
                "relaxed_header_parser=on widens BWS to SP/HTAB/VT/FF/CR (Parser::WhitespaceCharacters); the oracle's grammar follows that documented tolerance"]
 MANIFEST = {
-    "text": "full for valid and truncated encodings, partial for arbitrary malformed input: Lean theorems over a branch-by-branch model of "
-            "TeChunkedParser/Tokenizer/tokenOrQuotedString/headersEnd show, for every body, every encoding in the grammar, every segmentation "
-            "and every sequence of positive payload capacities, that the decoder outputs exactly the body and consumes exactly the encoding; "
-            "that a proper prefix only ever asks for more data; and that 0x prefixes, non-hex sizes, sizes >= 2^63, missing CRLFs and "
-            "malformed extensions are rejected. Segmentation independence on malformed input is false of the code (known finding: BWS "
-            "between the last chunk-ext value and CRLF is accepted only when a read boundary falls there) and is proved with the one-shot "
-            "rejection excluded. The real parser runs under ASan/UBSan against the model and a grammar-based reference decoder.",
-    "note": "trusted: Lean kernel, set/constant dump, C++ harness, python reference recogniser; modelled not verified: SBuf/MemBuf internals, "
-            "the extracted trailer block (cleanMimePrefix/unfoldMime), the ICAP custom extension parser",
-    "technique": "Lean 4 proof (stability of every tokenizer step under input extension + checkpoint invariant) + behavioural set dump + "
-                 "ASan differential run with grammar-directed generators",
+    "text": "full for grammar-valid and truncated encodings, partial for segmentation independence on arbitrary input: Lean theorems over a "
+            "branch-by-branch model of TeChunkedParser / Tokenizer::int64 / tokenOrQuotedString / headersEnd and of the caller's feeding loop "
+            "show, for every body, every encoding in the RFC 9112 grammar (any chunk sizes, hex case, leading zeros, BWS, token and "
+            "quoted-string extensions, trailers), every segmentation (with pipelined octets after the message) and every sequence of "
+            "positive payload capacities, that the decoder ends done with exactly the body and exactly the encoding consumed "
+            "(decode_exact); that a proper prefix only ever asks for more data (truncated_needs_more); that 0x/0X sizes, non-hex sizes, "
+            "sizes >= 2^63 and data without CRLF are rejected after any number of chunks in every segmentation (reject_*); and that for "
+            "EVERY input all segmentations and capacities agree with the unsegmented run unless that run fails with 'cannot skip CRLF "
+            "after [chunk-ext]' (segmentation_independence_partial). The exclusion is a real defect (known finding "
+            "C24-bws-before-crlf-split, counterexample proved by decide): SP/HTAB between a chunk-ext value and CRLF is accepted only "
+            "when a read ends there. The real parser runs under ASan/UBSan against the model (per-call trace) and against a grammar-based "
+            "reference decoder in both relaxed_header_parser settings.",
+    "note": "trusted: Lean kernel, behavioural octet-class/digit/flag dump, C++ harness, python reference recogniser; modelled not verified: "
+            "SBuf/MemBuf internals; not modelled: the extracted trailer block (cleanMimePrefix/unfoldMime), the ICAP custom extension "
+            "value parser, what a caller does after 'trailers too large'",
+    "technique": "Lean 4 proof (stability of every tokenizer step under input extension, resume-from-checkpoint lemma for the loop, "
+                 "space/segmentation confluence, grammar induction) + behavioural set dump + ASan differential run with grammar-directed, "
+                 "boundary, mutation and exhaustive small-scope generators",
+    "engine": "inproc",
 }
 
 EXT_NAMES = [b"a", b"name", b"x-y.z", b"!#$%&'*+-.^_`|~", b"0", b"ABC123"]
@@ -499,7 +507,7 @@ def cases(rng, tier):
                 yield case_line("x", False, s, "*1", "-", "-", "small")
                 yield case_line("x", True, s, "-", "-", "-", "small")
     # ---- valid stream
-    nvalid = 2500 if thorough else 260
+    nvalid = 2500 if thorough else 170
     for i in range(nvalid):
         relaxed = rng.chance(1, 2)
         k = rng.below(20)
@@ -510,7 +518,7 @@ def cases(rng, tier):
         elif k < 19:
             nbody = rng.range(600, 9000)
         else:
-            nbody = rng.choice([65536, 65535, 40000, 16384]) if (thorough or i % 4 == 0) else rng.range(9000, 20000)
+            nbody = rng.choice([65536, 65535, 40000, 16384]) if (thorough or i % 3 == 0) else rng.range(9000, 20000)
         enc, body, marks = gen_valid(rng, nbody, relaxed)
         r = ref_decode(enc, relaxed)
         if r[0] != "done" or r[1] != body or r[2] != len(enc):
@@ -647,8 +655,10 @@ def oracle(line, impl):
 
 def classify(line, impl, why):
     """C24-bws-before-crlf-split: BWS between a chunk-ext *value* and CRLF, accepted because a read boundary falls
-    between the end of the value and the CR."""
-    if not why or not why.startswith("malformed framing (bws-before-crlf-after-value"):
+    between the end of the value and the CR. The acceptance shows either as a missing rejection or (when something later
+    in the input is rejected anyway) as output beyond the well-formed part."""
+    if not why or not (why.startswith("malformed framing (bws-before-crlf-after-value") or
+                       why.startswith("output before the rejection is not a prefix")):
         return None
     f = line.split(" ")
     enc, relaxed = unhx(f[2]), f[1] == "1"
